@@ -45,6 +45,10 @@ func (li Balances) View(limit uint64) (*RegistryBalancesView, error) {
 		tmp[i] = Uint64View(bal)
 	}
 	typ := BasicListType(common.GweiType, limit)
+	if len(tmp) == 0 {
+		// FromElements builds an invalid tree out of zero elements
+		return AsRegistryBalances(typ.Default(nil), nil)
+	}
 	return AsRegistryBalances(typ.FromElements(tmp...))
 }
 
